@@ -9,6 +9,7 @@ From Onet Require Export Base.Corr Api.Rest Api.RestConc Api.Par.
    definition to [true] when the corresponding fix commit lands. *)
 Definition code_fixed_F17 := true.   (* REST: decoded argument allocated per request *)
 Definition code_fixed_F28 := true.   (* client: a kept connection that failed is dropped *)
+Definition code_fixed_C14N1 := false. (* parallel sender: the QuitError path closes [done] under the mutex, once *)
 
 Definition code_flags : flags := {| fix_f17 := code_fixed_F17; fix_keep := code_fixed_F28 |}.
 
@@ -35,13 +36,16 @@ Record sobs := SObs { so_replies : list (list reply); so_status : sstatus }.
 Inductive pstep :=
 | StSend (calls : list (nat * pmsg))
     (* concurrent Client.SendProtobuf calls of ONE client: (destination node, request) *)
-| StCall (o : popts) (use_decoder want_ret : bool) (q : pmsg) (prio : list nat).
+| StCall (o : popts) (use_decoder want_ret : bool) (q : pmsg) (prio : list nat) (hold : option nat).
     (* SendProtobufParallel[WithDecoder] to all nodes; prio = the order in which the
-       harness lets the nodes answer ([] = not controlled) *)
+       harness lets the nodes answer ([] = not controlled); hold = the node whose worker
+       the harness keeps at the schedule point client.parAccept (between its check of
+       [done] and its close) until all other nodes have answered *)
 Inductive pstep_obs :=
 | OSend (replies : list reply)
-| OCall (res : option presult) (ret_first ret_final : option msg).
-    (* res = None: the call never returned (the process died / hung) *)
+| OCall (res : option presult) (ret_first ret_final : option msg) (died : bool).
+    (* res = None: the call never returned; died: the process died during the step
+       (then ret_final could not be read) *)
 
 Inductive case :=
 | Case (clients : list ckind) (rounds : list (list creq)) (obs : list (list reply))
@@ -251,37 +255,43 @@ Definition send_reply (bs : list nbehav) (call : nat * pmsg) : reply :=
   end.
 
 Definition predicted (bs : list nbehav) (o : popts) (use_decoder want_ret : bool) (q : pmsg)
-           (perm prio : list nat) : option pobs :=
+           (perm prio : list nat) (hold : option nat) : pobs :=
   let n := List.length bs in
   let (par, chosen) := getlist n o perm in
-  observe (drive (S (S n)) false want_ret (quit_of o) (node_out bs use_decoder (decode_q q)) prio (pinit par chosen)).
+  observe (drive (3 * n + 4) false code_fixed_C14N1 want_ret (quit_of o) (node_out bs use_decoder (decode_q q))
+                 prio hold (pinit par chosen)).
+
+Definition ores_eqb (a b : option presult) : bool :=
+  match a, b with Some x, Some y => presult_eqb x y | None, None => true | _, _ => false end.
 
 Definition agree_pstep (bs : list nbehav) (st : pstep) (ob : pstep_obs) : bool :=
   match st, ob with
   | StSend calls, OSend rs => list_eqb agree_reply (map (send_reply bs) calls) rs
-  | StCall o use_decoder want_ret q prio, OCall (Some res) first final =>
+  | StCall o use_decoder want_ret q prio hold, OCall res first final died =>
       let ids := seq 0 (List.length bs) in
       let cperm := if o_nil o || negb (o_noshuffle o) then perms ids else [ids] in
       let cprio := match prio with [] => perms ids | _ => [prio] end in
       existsb (fun perm => existsb (fun pr =>
-        match predicted bs o use_decoder want_ret q perm pr with
-        | Some p => presult_eqb (po_result p) res && omsg_eqb (po_ret_first p) first && omsg_eqb (po_ret_final p) final
-        | None => false
-        end) cprio) cperm
+        let p := predicted bs o use_decoder want_ret q perm pr hold in
+        ores_eqb (po_result p) res && omsg_eqb (po_ret_first p) first && Bool.eqb (po_died p) died &&
+        (died || omsg_eqb (po_ret_final p) final)) cprio) cperm
   | _, _ => false
   end.
 
 (* clause 7: the value decoded into ret -- when the call returned, or re-read after all
    workers had finished -- is not the reply that the node named in the result produced
    for this request (or ret was written although no node was accepted / none was given)
+   clause 9: the call returned an error although ret was written with some node's reply
+   (at the return or afterwards)
    clause 1: a single SendProtobuf was not answered with the reply of its destination
-   clause 4: no answer at all *)
+   clause 4: no answer at all: the call did not return, panicked, or the client process died *)
 Definition check_pstep (bs : list nbehav) (st : pstep) (ob : pstep_obs) : list nat :=
   match st, ob with
   | StSend calls, OSend rs =>
       List.concat (zip_with (fun c o => if sat_reply true (send_reply bs c) o then []
                                    else if not_answered o then [4] else [1]) [1] calls rs)
-  | StCall o use_decoder want_ret q prio, OCall res first final =>
+  | StCall o use_decoder want_ret q prio hold, OCall res first final died =>
+      (if died then [4] else []) ++
       match res with
       | None => [4]
       | Some (RNode n) =>
@@ -296,10 +306,15 @@ Definition check_pstep (bs : list nbehav) (st : pstep) (ob : pstep_obs) : list n
                  | _ => Some None
                  end in
           match expect with
-          | Some e => clause 7 (omsg_eqb first e && omsg_eqb final e)
+          | Some e => clause 7 (omsg_eqb first e && (died || omsg_eqb final e))
           | None => [7]
           end
-      | Some _ => clause 7 (negb want_ret || omsg_eqb first final) (* an error: ret is not a reply; it must at least not change behind the caller's back *)
+      | Some (RError _ _) =>
+          (* an error: no reply was accepted, so ret must not have been written, nor be written later *)
+          clause 9 (omsg_eqb first None && (died || omsg_eqb final None))
+      | Some RCrash =>
+          (* the call panicked: legitimate only when there was nobody to ask *)
+          clause 4 (match snd (getlist (List.length bs) o (seq 0 (List.length bs))) with [] => true | _ => false end)
       end
   | _, _ => [1]
   end.
